@@ -288,6 +288,12 @@ func runCase(r *ev.Report, sc scenario, f fault) {
 		r.Violation(key("no-error"), map[string]any{"case": c, "msg": "a failed connection produced no error"})
 	}
 	if f.Kind == "none" && err != nil {
+		if r.ViolationCount() > 0 {
+			// the real-socket part already has a verdict; the in-memory peer cannot bind
+			r.Exhaustive = false
+			r.Note("the in-memory peer cannot stand in for this dial sequence (%s fails without any fault: %v); only the Env-A part was decided", sc.Name, err)
+			r.Finish()
+		}
 		ev.Fatal("scenario %s fails without any fault: %v", sc.Name, err)
 	}
 }
@@ -312,6 +318,9 @@ func main() {
 		r.Distinct("b")
 		r.Finish()
 	}
+	// real sockets first: if the source no longer dials in a way the in-memory peer can
+	// stand in for, this part still gives a verdict
+	envaPart(r, envaDir)
 	step := 1
 	for _, sc := range scenarios() {
 		runCase(r, sc, fault{Hop: 0, Kind: "none"})
@@ -338,7 +347,6 @@ func main() {
 		r.Sample(caseDesc{sc.Name, fault{Hop: len(sc.Hops) - 1, Kind: "stall", At: 17}})
 	}
 	verifrt.SetWorld(nil)
-	envaPart(r, envaDir)
 	r.Extra["timeout_s"] = timeout.Seconds()
 	r.Extra["scenarios"] = len(scenarios())
 	r.Assumptions = append(r.Assumptions,
